@@ -271,8 +271,8 @@ func (w *saveWalk) walk(list []ast.Stmt, roles map[string]string, outerChecked b
 					checked := false
 					// x, err := f(); if err != nil { return ... } as the next statement
 					ev := errVarOf(s.Lhs)
-					if ev != "" && i+1 < len(list) {
-						checked = handledBy(list[i+1], ev, w.otherErrVars(ev))
+					if ev != "" {
+						checked = handledByNext(list[i+1:], ev, w.otherErrVars(ev))
 					}
 					w.noteErrVar(ev)
 					w.call(c, checked, "assigned, then checked by the next statement", roles, outerChecked)
@@ -426,6 +426,41 @@ func handledBy(st ast.Stmt, v string, others map[string]bool) bool {
 			}
 		}
 		return sawDefault && sawNil
+	}
+	return false
+}
+
+// handledByNext: the statements that follow a call handle its error: the first one does (handledBy), or it is an
+// early return for a special case of the error (`if v != nil && ... { return ..err }`) and what follows handles it
+func handledByNext(rest []ast.Stmt, v string, others map[string]bool) bool {
+	for _, st := range rest {
+		if handledBy(st, v, others) {
+			return true
+		}
+		is, ok := st.(*ast.IfStmt)
+		if !ok || is.Init != nil || is.Else != nil {
+			return false
+		}
+		var conj []ast.Expr
+		var flat func(e ast.Expr)
+		flat = func(e ast.Expr) {
+			if b, ok := e.(*ast.BinaryExpr); ok && b.Op == token.LAND {
+				flat(b.X)
+				flat(b.Y)
+				return
+			}
+			conj = append(conj, e)
+		}
+		flat(is.Cond)
+		special := false
+		for _, c := range conj {
+			if isErrNotNil(c, v) {
+				special = true
+			}
+		}
+		if !special || !returnsErrorOf(is.Body, v, others) {
+			return false
+		}
 	}
 	return false
 }
